@@ -66,7 +66,16 @@ impl<'a> Parser<'a> {
     /// Parse the regex and return an expression (AST) and a bit set with the indexes of groups
     /// that are referenced by backrefs.
     pub(crate) fn parse(re: &str) -> Result<ExprTree> {
+        Self::parse_with_case_insensitive(re, false)
+    }
+
+    /// Parse the regex like `parse`, starting in case-insensitive mode if `casei` is set (as if
+    /// the pattern was prefixed with `(?i)`).
+    pub(crate) fn parse_with_case_insensitive(re: &str, casei: bool) -> Result<ExprTree> {
         let mut p = Parser::new(re);
+        if casei {
+            p.flags |= FLAG_CASEI;
+        }
         let (ix, expr) = p.parse_re(0, 0)?;
         if ix < re.len() {
             return Err(Error::ParseError(
